@@ -21,6 +21,14 @@ trait Coll {
     fn find(&self, _v: u32) -> Option<Option<usize>> {
         None
     }
+    /// values seen by mutable iteration, where the collection offers it
+    fn iter_mut_vals(&mut self) -> Option<Vec<String>> {
+        None
+    }
+    /// give the k-th issued item a (new) debug name through `get_mut`, where the item has one
+    fn rename(&mut self, _k: usize, _name: &str) -> bool {
+        false
+    }
     fn issued(&self) -> usize;
 }
 
@@ -62,6 +70,7 @@ impl Coll for Globals {
             other => format!("?{:?}", other),
         }).collect()
     }
+    fn rename(&mut self, k: usize, name: &str) -> bool { self.m.globals.get_mut(self.ids[k]).name = Some(name.to_string()); true }
     fn issued(&self) -> usize { self.ids.len() }
 }
 
@@ -79,6 +88,8 @@ impl Coll for Tables {
         guarded(|| format!("{}", self.m.tables.get(id).initial)).ok()
     }
     fn iter(&self) -> Vec<String> { self.m.tables.iter().map(|t| format!("{}", t.initial)).collect() }
+    fn iter_mut_vals(&mut self) -> Option<Vec<String>> { Some(self.m.tables.iter_mut().map(|t| format!("{}", t.initial)).collect()) }
+    fn rename(&mut self, k: usize, name: &str) -> bool { self.m.tables.get_mut(self.ids[k]).name = Some(name.to_string()); true }
     fn issued(&self) -> usize { self.ids.len() }
 }
 
@@ -96,6 +107,8 @@ impl Coll for Memories {
         guarded(|| format!("{}", self.m.memories.get(id).initial)).ok()
     }
     fn iter(&self) -> Vec<String> { self.m.memories.iter().map(|t| format!("{}", t.initial)).collect() }
+    fn iter_mut_vals(&mut self) -> Option<Vec<String>> { Some(self.m.memories.iter_mut().map(|t| format!("{}", t.initial)).collect()) }
+    fn rename(&mut self, k: usize, name: &str) -> bool { self.m.memories.get_mut(self.ids[k]).name = Some(name.to_string()); true }
     fn issued(&self) -> usize { self.ids.len() }
 }
 
@@ -113,6 +126,7 @@ impl Coll for Datas {
         guarded(|| format!("{}", self.m.data.get(id).value.first().copied().unwrap_or(255))).ok()
     }
     fn iter(&self) -> Vec<String> { self.m.data.iter().map(|t| format!("{}", t.value.first().copied().unwrap_or(255))).collect() }
+    fn rename(&mut self, k: usize, name: &str) -> bool { self.m.data.get_mut(self.ids[k]).name = Some(name.to_string()); true }
     fn issued(&self) -> usize { self.ids.len() }
 }
 
@@ -136,6 +150,8 @@ impl Coll for Elements {
         guarded(|| elem_val(self.m.elements.get(id))).ok()
     }
     fn iter(&self) -> Vec<String> { self.m.elements.iter().map(elem_val).collect() }
+    fn iter_mut_vals(&mut self) -> Option<Vec<String>> { Some(self.m.elements.iter_mut().map(|e| elem_val(e)).collect()) }
+    fn rename(&mut self, k: usize, name: &str) -> bool { self.m.elements.get_mut(self.ids[k]).name = Some(name.to_string()); true }
     fn issued(&self) -> usize { self.ids.len() }
 }
 
@@ -154,6 +170,7 @@ impl Coll for Types {
         guarded(|| format!("{}", self.m.types.get(id).params().len())).ok()
     }
     fn iter(&self) -> Vec<String> { self.m.types.iter().map(|t| format!("{}", t.params().len())).collect() }
+    fn rename(&mut self, k: usize, name: &str) -> bool { self.m.types.get_mut(self.ids[k]).name = Some(name.to_string()); true }
     fn find(&self, v: u32) -> Option<Option<usize>> {
         let params = vec![ValType::I32; v as usize];
         Some(self.m.types.find(&params, &[]).map(|id| self.ids.iter().position(|x| *x == id).unwrap_or(usize::MAX)))
@@ -176,6 +193,7 @@ impl Coll for Exports {
         guarded(|| self.m.exports.get(id).name[1..].to_string()).ok()
     }
     fn iter(&self) -> Vec<String> { self.m.exports.iter().map(|e| e.name[1..].to_string()).collect() }
+    fn iter_mut_vals(&mut self) -> Option<Vec<String>> { Some(self.m.exports.iter_mut().map(|e| e.name[1..].to_string()).collect()) }
     fn issued(&self) -> usize { self.ids.len() }
 }
 
@@ -194,6 +212,7 @@ impl Coll for Imports {
         guarded(|| self.m.imports.get(id).name[1..].to_string()).ok()
     }
     fn iter(&self) -> Vec<String> { self.m.imports.iter().map(|e| e.name[1..].to_string()).collect() }
+    fn iter_mut_vals(&mut self) -> Option<Vec<String>> { Some(self.m.imports.iter_mut().map(|e| e.name[1..].to_string()).collect()) }
     fn find(&self, v: u32) -> Option<Option<usize>> {
         Some(self.m.imports.find("m", &format!("v{}", v)).map(|id| self.ids.iter().position(|x| *x == id).unwrap_or(usize::MAX)))
     }
@@ -232,6 +251,8 @@ impl Coll for Funcs {
         guarded(|| func_val(self.m.funcs.get(id))).ok()
     }
     fn iter(&self) -> Vec<String> { self.m.funcs.iter().map(func_val).collect() }
+    fn iter_mut_vals(&mut self) -> Option<Vec<String>> { Some(self.m.funcs.iter_mut().map(|f| func_val(f)).collect()) }
+    fn rename(&mut self, k: usize, name: &str) -> bool { self.m.funcs.get_mut(self.ids[k]).name = Some(name.to_string()); true }
     fn issued(&self) -> usize { self.ids.len() }
 }
 
@@ -267,6 +288,7 @@ impl Coll for Customs {
         guarded(|| self.m.customs.get(id).map(|c| c.name[1..].to_string())).ok().flatten()
     }
     fn iter(&self) -> Vec<String> { self.m.customs.iter().map(|(_, c)| c.name()[1..].to_string()).collect() }
+    fn iter_mut_vals(&mut self) -> Option<Vec<String>> { Some(self.m.customs.iter_mut().map(|(_, c)| c.name()[1..].to_string()).collect()) }
     fn issued(&self) -> usize { self.ids.len() }
 }
 
@@ -317,6 +339,16 @@ pub fn run(input: &[u8], rec: &mut Rec) {
                 let (k, new) = c.add(s as u32 - 'a' as u32);
                 format!("add -> id#{} {}", k, if new { "new" } else { "existing" })
             }
+            'r' | 'R' => {
+                // rename through get_mut: must not disturb identity, lookup or later deletion
+                let k = if s == 'R' { c.issued().wrapping_sub(1) } else { dead.iter().position(|d| !*d).unwrap_or(usize::MAX) };
+                if k >= c.issued() || dead.get(k).copied().unwrap_or(false) {
+                    "rename -> skip".to_string()
+                } else {
+                    let done = c.rename(k, &format!("renamed{}", step));
+                    format!("rename id#{} {}", k, if done { "done" } else { "n/a" })
+                }
+            }
             _ => {
                 let k = if s == 'L' { c.issued().wrapping_sub(1) } else { (s as u8 - b'0') as usize };
                 if k >= c.issued() || dead.get(k).copied().unwrap_or(false) || coll == "locals" {
@@ -354,6 +386,11 @@ pub fn run(input: &[u8], rec: &mut Rec) {
         match guarded(|| c.iter()) {
             Ok(v) => line.push_str(&format!(" [{}]", v.join(","))),
             Err(p) => line.push_str(&format!(" PANIC {}", p)),
+        }
+        match guarded(|| c.iter_mut_vals()) {
+            Ok(Some(v)) => line.push_str(&format!(" | iter_mut: [{}]", v.join(","))),
+            Ok(None) => line.push_str(" | iter_mut: n/a"),
+            Err(p) => line.push_str(&format!(" | iter_mut: PANIC {}", p)),
         }
         line.push_str(" | find:");
         for v in 0..4u32 {
